@@ -94,9 +94,12 @@ def build(P):
             else:
                 params[pn] = FID
                 ens += [(f"{pn}_enum_is_kept", f"self.{pn} is {pn}")]
+        unknown = " or ".join(f"not any([lower({pn}) == m.value or {pn} == m.value for m in FrameID])" for pn, k in zip(("src", "dst"), kinds) if k == "str") or "False"
         P.verify("common.transform:TransformKey.__init__", name=f"TransformKey.__init__[{kinds[0]},{kinds[1]}]",
                  contract=Contract("common.transform:TransformKey.__init__", cut=False, params=params, ensures=ens,
-                                   raises={"ValueError": "True"}))
+                                   raises={"ValueError": unknown}))
+    import contracts.C18 as C18
+    C18.label_tasks(P)      # HomogeneousMatrix(..., src, dst): the same string-or-member convention
     # equality of keys built from either spelling: TransformKey.__eq__ compares the members
     def two_keys(it):
         a = it.ctx.new_cell("obj", {}, TK)
